@@ -319,6 +319,19 @@ impl<'a, T: Read + Write + Seek> PointCloudWriter<'a, T> {
             }
         }
 
+        // Integer ranges must not be reversed, the reader rejects such prototypes
+        for record in prototype {
+            match record.data_type {
+                RecordDataType::Integer { min, max }
+                | RecordDataType::ScaledInteger { min, max, .. }
+                    if max < min =>
+                {
+                    Error::invalid("Integer records need a minimum that is not bigger than the maximum")?
+                }
+                _ => {}
+            }
+        }
+
         // Time stamp check
         if let Some(record) = get(RecordName::IsTimeStampInvalid) {
             if !contains(RecordName::TimeStamp) {
